@@ -56,7 +56,7 @@ class OpcRegReg(RiscvcInstruction):
 
 
 def makec_regreg(mnemonic, func):
-    rd = Operand("rd", RiscvRegister, write=True)
+    rd = Operand("rd", RiscvRegister, read=True, write=True)
     rn = Operand("rn", RiscvRegister, read=True)
     syntax = Syntax(["c", ".", mnemonic, " ", rd, ",", " ", rn])
     members = {"syntax": syntax, "rd": rd, "rn": rn, "func": func}
@@ -112,7 +112,7 @@ CAndi = makec_i("andi", 0b10)
 
 
 class CAddi(RiscvcInstruction):
-    rd = Operand("rd", RiscvRegister, write=True)
+    rd = Operand("rd", RiscvRegister, read=True, write=True)
     imm = Operand("imm", int)
     syntax = Syntax(["c", ".", "addi", " ", rd, ",", " ", rd, ",", " ", imm])
 
